@@ -37,7 +37,7 @@
 (*   CorruptCache; SetOptions(o2); Load(use cache, write)                                *)
 (* i.e. every ordered pair of option sets with the cache present / absent / stale /      *)
 (* corrupt in between.                                                                   *)
-EXTENDS Integers, Sequences, FiniteSets, TLC, Json
+EXTENDS Integers, Sequences, FiniteSets, TLC, Json, IOUtils
 
 CONSTANTS MaxLen,      \* bound on the number of actions
           NMaps,       \* map contents 1..NMaps (EditMap cycles through them)
@@ -45,8 +45,11 @@ CONSTANTS MaxLen,      \* bound on the number of actions
           Kinds,       \* ways to corrupt the cache file (strings, meaningful to the harness)
           AsImplemented, \* FALSE: the ideal protocol, replayed on the code.  TRUE: adds the named
                          \* as-implemented deviation "corrupt-cache-served" below
-          Pairs,         \* FALSE: free action sequences; TRUE: ordered pairs of option sets (see above)
-          Eff            \* Eff[d][o]: class of the network parsed from map content d under option set o
+          Pairs          \* FALSE: free action sequences; TRUE: ordered pairs of option sets (see above)
+
+\* Eff[d][o]: class of the network parsed from map content d under option set o (a JSON array of
+\* arrays measured by the harness; TLC's cfg files cannot hold tuples, so it comes through a file)
+Eff == JsonDeserialize(IOEnv.EFF)
 
 VARIABLES mapD, opt, ver, cache, last, hist
 vars == <<mapD, opt, ver, cache, last, hist>>
@@ -125,16 +128,20 @@ BumpVersion ==
   /\ hist' = Append(hist, [a |-> "BumpVersion", use |-> FALSE, write |-> FALSE, kind |-> "", o |-> 0])
   /\ UNCHANGED <<mapD, opt, cache, last>>
 
-FreeNext == \/ \E u, w \in BOOLEAN : Load(u, w)
-            \/ EditMap \/ ChangeOptions \/ BumpVersion
-            \/ \E kind \in Kinds : CorruptCache(kind)
-            \/ DamageBody
+\* which actions may happen where: anywhere in free mode, by position in pairs mode
 Pos == Len(hist) + 1
-PairsNext == \/ Pos \in {1, 4} /\ \E o \in 1..NOpts : SetOptions(o)
-             \/ Pos = 2 /\ \E w \in BOOLEAN : Load(FALSE, w)
-             \/ Pos = 3 /\ (Idle \/ EditMap \/ BumpVersion \/ \E kind \in Kinds : CorruptCache(kind))
-             \/ Pos = 5 /\ Load(TRUE, TRUE)
-Next == IF Pairs THEN PairsNext ELSE FreeNext
+LoadOK(u, w) == ~Pairs \/ (Pos = 2 /\ ~u) \/ (Pos = 5 /\ u /\ w)
+Between == ~Pairs \/ Pos = 3
+DoLoad == \E u, w \in BOOLEAN : LoadOK(u, w) /\ Load(u, w)
+DoEditMap == Between /\ EditMap
+DoChangeOptions == ~Pairs /\ ChangeOptions
+DoBumpVersion == Between /\ BumpVersion
+DoCorruptCache == Between /\ \E kind \in Kinds : CorruptCache(kind)
+DoDamageBody == ~Pairs /\ DamageBody
+DoSetOptions == Pairs /\ Pos \in {1, 4} /\ \E o \in 1..NOpts : SetOptions(o)
+DoIdle == Pairs /\ Pos = 3 /\ Idle
+Next == \/ DoLoad \/ DoEditMap \/ DoChangeOptions \/ DoBumpVersion \/ DoCorruptCache
+        \/ DoDamageBody \/ DoSetOptions \/ DoIdle
 
 Spec == Init /\ [][Next]_vars
 Bounded == Len(hist) <= MaxLen
